@@ -249,7 +249,7 @@ fn run_list(c: &ListCase) -> Verdict {
 pub fn def() -> PropDef {
     PropDef {
         id: "C10",
-        rule: "diff: cases = a history over a pool of 4 generated tables of one size N in 0..=12 (1..24 steps quick / 1..60 thorough) drawn from the whole common API: constructors with arguments, from_blocks, from_hex_string(any string), all_functions().nth(k), operators in every form, flip/swap/swap_adjacent (copying and in place), cofactors, from_cofactors, bit setters, canonizations (N<=7), hooked successor, round trips, value/get_bit, top_decomposition/unateness, the five text forms, num_vars/num_bits/num_blocks/blocks, cmp/partial_cmp/==/</<=/>/>=, bdd_complexity of 1..4 slots and of the empty list. The same history is interpreted on Lut and on the alias LutN; after every step the outcomes must be identical: same blocks, same perm/mask, same classification, same counts, same strings, same Ordering, same Ok/Err, panic on the same step. Non-trivial = a non-constant initial table and at least one step that is not a constructor. bddlist: bdd_complexity (the one operation taking arbitrarily many tables) on lists of 1 .. 2^17.6 words in total (log-uniform), drawn from 1..4 generated base functions and their complements: Lut and LutN must agree (what the count should be is C07's statement and is not judged here). conv: for a generated Lut of n variables, LutN::try_from is Ok exactly for N = n (all N in 0..=12), preserves blocks and value, and Lut->LutN->Lut and LutN->Lut->LutN are identities. int: From<u8/u16/u32/u64> for Lut3..6 has value(m) = bit m, converting back gives the integer (also for a table built by another route and through the dynamic type); exhaustive for u8 and u16, generated for u32/u64.",
+        rule: "diff: cases = a history over a pool of 4 generated tables of one size N in 0..=12 (1..24 steps quick / 1..60 thorough) drawn from the whole common API: constructors with arguments, from_blocks, from_hex_string(any string), all_functions().nth(k), operators in every form, flip/swap/swap_adjacent (copying and in place), cofactors, from_cofactors, bit setters, canonizations (N<=7), hooked successor, round trips, value/get_bit, top_decomposition/unateness, the five text forms and the formatting traits under ten other format specifications (`#`, width, alignment, fill, precision, `+`), num_vars/num_bits/num_blocks/blocks, cmp/partial_cmp/==/</<=/>/>=, bdd_complexity of 1..4 slots and of the empty list. The same history is interpreted on Lut and on the alias LutN; after every step the outcomes must be identical: same blocks, same perm/mask, same classification, same counts, same strings, same Ordering, same Ok/Err, panic on the same step. Non-trivial = a non-constant initial table and at least one step that is not a constructor. bddlist: bdd_complexity (the one operation taking arbitrarily many tables) on lists of 1 .. 2^17.6 words in total (log-uniform), drawn from 1..4 generated base functions and their complements: Lut and LutN must agree (what the count should be is C07's statement and is not judged here). conv: for a generated Lut of n variables, LutN::try_from is Ok exactly for N = n (all N in 0..=12), preserves blocks and value, and Lut->LutN->Lut and LutN->Lut->LutN are identities. int: From<u8/u16/u32/u64> for Lut3..6 has value(m) = bit m, converting back gives the integer (also for a table built by another route and through the dynamic type); exhaustive for u8 and u16, generated for u32/u64.",
         assumptions: vec![
             "Default::default() is excluded from the differential (Lut::default() has 0 variables by design)",
             "canonization at N = 8 is exercised for both families in C04/C05, at N >= 9 nowhere (minutes per call)",
